@@ -359,6 +359,69 @@ func (r *runner) denyHoldsUntilItsExpiry() []lib.Violation {
 	return out
 }
 
+// denyAllowDenyAgain: sequential multi-round history on one booking (and a bystander round on a second):
+// connect, deny (closes), allow, connect again, deny again - the second deny must close the new
+// connection as well, new sessions must be refused after each deny and accepted after the allow.
+func (r *runner) denyAllowDenyAgain() []lib.Violation {
+	var out []lib.Violation
+	bid := fmt.Sprintf("rounds-%d", os.Getpid())
+	topic := "t-" + bid
+	exp := time.Now().Unix() + 600
+	hist := []string{}
+	note := func(f string, a ...interface{}) { hist = append(hist, fmt.Sprintf(f, a...)) }
+	bad := func(clause, detail string) {
+		out = append(out, lib.Violation{Clause: clause, Case: -1, Detail: detail + " [history: " + strings.Join(hist, "; ") + "]",
+			Replay: map[string]interface{}{"history": hist}, Key: clause + ":rounds"})
+	}
+	var conns []*websocket.Conn
+	defer func() {
+		for _, c := range conns {
+			c.Close()
+		}
+		r.rl.Allow(bid, time.Now().Unix()+1, r.admin)
+	}()
+	for round := 1; round <= 3; round++ {
+		// two connections per round: one leaves before the deny, one stays
+		uas := []string{fmt.Sprintf("rounds-%s-%d-a", bid, round), fmt.Sprintf("rounds-%s-%d-b", bid, round)}
+		for _, ua := range uas {
+			st, uri, _ := r.rl.Session(topic, r.bearer(bid, exp))
+			if st != 200 {
+				bad("session-refused-after-allow", fmt.Sprintf("round %d: session for an allowed booking answered %d", round, st))
+				return out
+			}
+			c := r.dialAs(uri, ua)
+			if c == nil || !r.waitListed(ua, true) {
+				bad("allow-does-not-restore", fmt.Sprintf("round %d: a connection with a fresh code did not join", round))
+				return out
+			}
+			conns = append(conns, c)
+		}
+		note("round %d: two connections joined", round)
+		conns[len(conns)-2].Close()
+		r.waitListed(uas[0], false)
+		note("round %d: the first one left", round)
+		if ds := r.rl.Deny(bid, exp, r.admin).Status; ds != 204 {
+			bad("valid-deny-refused", fmt.Sprintf("round %d: deny answered %d", round, ds))
+			return out
+		}
+		note("round %d: deny -> 204", round)
+		if !r.waitListed(uas[1], false) {
+			bad("connection-survives-deny", fmt.Sprintf("round %d: the live connection of the booking is still joined 2 s after the deny was acknowledged", round))
+			return out
+		}
+		if st, _, _ := r.rl.Session(topic, r.bearer(bid, exp)); st == 200 {
+			bad("session-accepted-after-deny", fmt.Sprintf("round %d: session accepted while the booking is denied", round))
+			return out
+		}
+		if as := r.rl.Allow(bid, exp, r.admin).Status; as != 204 {
+			bad("valid-allow-refused", fmt.Sprintf("round %d: allow answered %d", round, as))
+			return out
+		}
+		note("round %d: allow -> 204", round)
+	}
+	return out
+}
+
 // waitListed polls /status until the user agent is (not) listed, up to 2 s.
 func (r *runner) waitListed(ua string, want bool) bool {
 	for i := 0; i < 100; i++ {
@@ -516,7 +579,7 @@ func main() {
 		}()
 		// "… until the expiry given in the deny request": a timed history beside the enumeration
 		timed := make(chan []lib.Violation, 1)
-		go func() { timed <- r.denyHoldsUntilItsExpiry() }()
+		go func() { timed <- append(r.denyHoldsUntilItsExpiry(), r.denyAllowDenyAgain()...) }()
 		// exhaustive: every interleaving of the two-actor families
 		r.enumerate("SD", []string{S, D}, &cases)
 		r.enumerate("WD", []string{W, D}, &cases)
